@@ -39,7 +39,7 @@ PROBE_PLUGIN_DIR = os.path.join(os.path.dirname(os.path.dirname(os.path.abspath(
 CATEGORIES = ["struct", "field", "enum", "impl", "signal_block", "type", "device", "uncategorized"]
 DIR_STATES = ["absent", "empty", "unrelated", "same-names", "stale-c"]
 # states that need the contents the plug-in is going to return (only used on the success path)
-CONTENT_STATES = ["same-names-crlf-copy", "same-names-not-utf8", "same-names-identical", "sibling-temp-files"]
+CONTENT_STATES = ["same-names-crlf-copy", "same-names-not-utf8", "same-names-identical", "sibling-temp-files", "blocked-by-directory"]
 
 
 def shards(tier):
@@ -123,6 +123,11 @@ def prepare_dir(root, state, names, contents=None):
             for sib in (stem + ".tmp", stem + ".bak", base + ".orig", base + "~", base + ".tmp"):
                 with open(sib, "w") as f:
                     f.write("user file %s\n" % os.path.basename(sib))
+        return out
+    if state == "blocked-by-directory":
+        # where the first output file should go there is a DIRECTORY of that name: the file cannot be written
+        for rel in sorted(contents or {})[:1]:
+            os.makedirs(os.path.join(out, rel))
         return out
     if state in CONTENT_STATES:
         for rel, text in (contents or {}).items():
@@ -261,7 +266,13 @@ def drive(run, gen_name, t, expect_reject, source, dir_state, root, probe=None, 
             verifier.register(make("synthetic rejection (first of two same-named checks) in %s" % cat), None if cat == "uncategorized" else cat)
             verifier.register(make(None), None if cat == "uncategorized" else cat)
         else:
-            verifier.register(reject, None if cat == "uncategorized" else cat)
+            try:
+                verifier.register(reject, None if cat == "uncategorized" else cat)
+            except ValueError:
+                # a category the verifier does not know is refused at registration: nothing was registered,
+                # nothing to judge
+                run.count("registrations_refused/" + cat)
+                return
         if position == "first":
             lst = getattr(verifier, "checks", {}).get(cat)
             if isinstance(lst, list) and len(lst) > 1:
@@ -321,6 +332,12 @@ def drive(run, gen_name, t, expect_reject, source, dir_state, root, probe=None, 
             return
         run.count("rejections_wrote_nothing")
     else:
+        if dir_state == "blocked-by-directory" and (raised is not None or type(result).__name__ != "Ok"):
+            # an output that cannot be written is reported (exception or error value): fine.  Returning Ok
+            # falls through to the comparison below, which finds the file missing.
+            run.count("unwritable_outputs_reported")
+            run.case(sig="%s|%s|%s" % (gen_name, source, dir_state))
+            return
         if raised is not None or type(result).__name__ != "Ok":
             run.violation("generate() failed on a schema every registered check accepts: %r %r" % (result, raised), case)
             return
@@ -483,6 +500,10 @@ def run(run):
             if g == "can_c":
                 drive(run, g, inject_plugin(rr, t, "oversize"), True, "plugin/oversize", rr.choice(DIR_STATES), root, known_names=names)
             # (d) synthetic rejecting check in every category
+            # node kinds the documented category list does not name: a registration that is accepted is a
+            # registered check like any other (the schema has services, methods and enumerators)
+            for cat in ("service", "method", "enumeration"):
+                drive(run, g, t, True, "synthetic/%s/last" % cat, rr.choice(DIR_STATES), root, probe=(cat, "last"), known_names=names)
             for cat in CATEGORIES:
                 for pos in ("last", "first", "pair", "late", "nothing"):
                     drive(run, g, t, True, "synthetic/%s/%s" % (cat, pos), rr.choice(DIR_STATES), root, probe=(cat, pos), known_names=names)
